@@ -342,7 +342,14 @@ pub fn replay_floats(seed: u64, n: usize) -> (Vec<Value>, u64, Vec<String>) {
     for t in &texts {
         let mut spellings = vec![format!("name = \"{}\"", t)];
         // also unquoted when the text is a Rust float literal
-        if syn::parse_str::<syn::LitFloat>(t.trim_start_matches('-')).is_ok() { spellings.push(format!("name = {}", t)); }
+        if syn::parse_str::<syn::LitFloat>(t.trim_start_matches('-')).is_ok() {
+            spellings.push(format!("name = {}", t));
+            // .. and with either suffix, whatever the target: a suffix is spelling, the value is the decimal text
+            for suf in ["f32", "f64"] {
+                let lit = format!("{}{}", t, suf);
+                if syn::parse_str::<syn::LitFloat>(lit.trim_start_matches('-')).is_ok() { spellings.push(format!("name = {}", lit)); }
+            }
+        }
         for sp in spellings {
             let src = format!("#[root({})]\nstruct Demo;", sp);
             let di: syn::DeriveInput = match syn::parse_str(&src) { Ok(d) => d, Err(_) => continue };
